@@ -197,6 +197,20 @@ class Ctx:
             self.cov['discharged'] = len(thms) - len(missing)
             self.proof_broken = 'no Print Assumptions under: ' + ', '.join(missing)
             return False
+        if self.tier == 'thorough' and not os.environ.get('VERIF_NO_COQCHK'):
+            # independent re-check of the compiled property file and everything it depends on
+            mod = 'CelloVTmp.' + propfile[:-2]
+            rc, o, e = sh(['coqchk', '-o', '-silent', '-Q', COQ, 'CelloV', '-Q', out, 'CelloVTmp', mod], timeout=3000)
+            txt = o + e
+            i = txt.find('CONTEXT SUMMARY')
+            summary = re.sub(r'\s+', ' ', txt[i:] if i >= 0 else txt[-600:]).strip()
+            self.cov['coqchk'] = {'cmd': 'coqchk -o -silent -Q coq CelloV ' + mod, 'rc': rc, 'summary': summary[:1500]}
+            self.cov['checker_cmd'] += ' && coqchk -o -silent -Q coq CelloV ' + mod
+            if rc != 0:
+                self.cov['discharged'] = 0
+                self.proof_broken = 'coqchk rejects %s: %s' % (mod, txt[-800:])
+                return False
+            tb.append('coqchk (independent checker) accepted %s; its context summary (axioms of every loaded library): %s' % (mod, summary[:600]))
         return True
 
     def build_driver(self, group):
